@@ -312,9 +312,18 @@ PAT_TEXT = {
     "str": '"ab"', "raw": 'r#"ab"#', "concat": 'concat!("a", "b")', "stringify": "stringify!(ab)",
     "wild": "_", "const": "FOO", "var": "x", "call": "foo()", "bstr": 'b"ab"', "chr": "'a'", "int": "1",
     "concatid": 'concat!("a", FOO)',
+    # a constant named by a path, a macro call that is neither concat! nor stringify!
+    "path": "self::FOO", "mac": "file!()",
+    # spellings of the EMPTY literal (still literals: what follows them in a `|` group must be validated too)
+    "estr": '""', "eraw": 'r""', "eraw1": 'r#""#', "econcat0": "concat!()", "econcat2": 'concat!("", "")',
+    "estringify": "stringify!()",
 }
 LITERAL_PATS = ["str", "raw", "concat", "stringify"]
 NONLIT_PATS = ["const", "var", "call", "bstr", "chr", "int", "concatid", "wild"]
+EMPTY_PATS = ["estr", "eraw", "econcat0", "econcat2"]
+EMPTY_PATS_MORE = ["eraw1", "estringify"]
+POS_NONLIT_PATS = ["const", "path", "bstr", "int", "mac"]
+POS_NONLIT_PATS_MORE = ["var", "call", "chr", "concatid", "wild"]
 MATCH_METHODS = ["strip_prefix", "strip_suffix", "find_skip", "rfind_skip"]
 TRIM_METHODS = ["trim_start_matches", "trim_end_matches"]
 
@@ -417,9 +426,74 @@ def gen_pm(tier):
         out.probe(pm_branches("probe", "probe", method, [B(["str"]), D]))
         out.probe(pm_branches("probe", "probe", method, [B(["str"])]))
         out.probe(pm_pats("probe", "probe", method, []))
+    gen_pm_positions(out, tier)
     out.probe(pm_branches("probe", "probe", "bogus", [B(["str"]), D]))
     out.probe(pm_pats("probe", "probe", "trim_matches", ["str"]))
     return out
+
+
+def gen_pm_positions(out, tier):
+    """a non-literal alternative at EVERY position of a `|` group that also holds an empty literal
+    (right after it, later after it, before it; group of 2 and of 3), the group being the first or a later
+    branch (followed by further branches or not), for all six method forms.  The proc macro must look at every
+    alternative of every group whatever the literals before it decode to; each program's control is the same
+    program with the offending alternative(s) removed."""
+    thorough = tier == "thorough"
+    D = (["wild"], False, False)
+    Dc = (["wild"], False, True)
+    B = lambda pats, block=False, comma=True: (list(pats), block, comma)
+    empties = EMPTY_PATS + (EMPTY_PATS_MORE if thorough else [])
+    nonlits = POS_NONLIT_PATS + (POS_NONLIT_PATS_MORE if thorough else [])
+    # (group with placeholders E = empty literal, N = non-literal, S = "ab"; control class)
+    SHAPES = [(("E", "N"), 0), (("N", "E"), 0),
+              (("S", "E", "N"), 1), (("S", "N", "E"), 1),
+              (("E", "N", "S"), 2), (("E", "S", "N"), 2)]
+
+    def fill(shape, e, n):
+        return [{"E": e, "N": n, "S": "str"}.get(x, x) for x in shape]
+
+    def without_n(shape, e):
+        return [{"E": e, "S": "str"}.get(x, x) for x in shape if x != "N"]
+
+    def layout(group, bp, long_):
+        """the branch list around the group: first branch / a later branch; alone or followed by another branch"""
+        if bp == 0:
+            return [B(group), B(["raw"]), D] if long_ else [B(group), D]
+        if long_:
+            return [B(["str"]), B(group, block=True, comma=False), B(["raw"]), D]
+        return [B(["str"]), B(group), Dc]
+
+    def match_pair(method, bp, long_, bad, good):
+        out.pair(pm_branches("nonliteral", "invalid", method, layout(bad, bp, long_)),
+                 pm_branches("nonliteral", "control", method, layout(good, bp, long_)))
+
+    def trim_pair(method, bad, good):
+        out.pair(pm_pats("nonliteral", "invalid", method, bad), pm_pats("nonliteral", "control", method, good))
+
+    for mi, method in enumerate(MATCH_METHODS):
+        for bp in (0, 1):
+            for si, (shape, ci) in enumerate(SHAPES):
+                long_ = ci == 1 or (ci == 2 and mi % 2 == 1)
+                slot = si + len(SHAPES) * bp + mi
+                # quick: the non-literal kind rotates over the slots (all kinds per method); thorough: all kinds
+                for ni in (range(len(nonlits)) if thorough else [slot % len(nonlits)]):
+                    e = empties[(mi + ci + 3 * bp + (ni if thorough else 0)) % len(empties)]
+                    match_pair(method, bp, long_, fill(shape, e, nonlits[ni]), without_n(shape, e))
+        # several non-literals after the empty literal; a non-literal in the middle of a group without one
+        e = empties[mi % len(empties)]
+        match_pair(method, mi % 2, False, [e, "const", "bstr", "int"], [e])
+        match_pair(method, 1 - mi % 2, mi % 2 == 0, ["str", nonlits[mi % len(nonlits)], "raw"], ["str", "raw"])
+
+    for ti, method in enumerate(TRIM_METHODS):
+        for j in (0, 1):
+            for si, (shape, ci) in enumerate(SHAPES):
+                slot = si + len(SHAPES) * j + ti
+                for ni in (range(len(nonlits)) if thorough else [slot % len(nonlits)]):
+                    e = empties[(2 * ti + ci + 2 * j + (ni if thorough else 0)) % len(empties)]
+                    trim_pair(method, fill(shape, e, nonlits[ni]), without_n(shape, e))
+        e = empties[(ti + 2) % len(empties)]
+        trim_pair(method, [e, "const", "bstr", "int"], [e])
+        trim_pair(method, ["str", nonlits[(ti + 1) % len(nonlits)], "raw"], ["str", "raw"])
 
 
 # =============================================================================================
